@@ -102,10 +102,46 @@ func TestDualContouring(t *testing.T) {
 	rapid.Check(t, func(t *rapid.T) {
 		st := rapid.SampledFrom(settings).Draw(t, "setting")
 		S := rapid.SampledFrom([]float64{1, 10}).Draw(t, "scale")
-		kind := rapid.SampledFrom([]string{"exact", "exact", "csg", "squashed"}).Draw(t, "kind")
+		kind := rapid.SampledFrom([]string{"exact", "exact", "csg", "squashed", "aligned"}).Draw(t, "kind")
 		var n *shape.Node
 		minScale := 1.0
-		if kind == "exact" {
+		var fixedBox *sdf.Box3
+		fixedCells := 0
+		if kind == "aligned" {
+			// axis-aligned boxes (one, or a union / difference of two) whose faces pass through grid
+			// nodes of the sampled volume, with a cell size that is not a binary fraction: the corner
+			// values there are 0 or an ulp away from it, whichever expression a renderer uses for the
+			// node coordinates
+			hh := rapid.SampledFrom([]float64{0.15, 0.1, 0.3, 0.7, 1.0 / 3, 0.05, 1.1}).Draw(t, "cell") * S
+			fixedCells = rapid.IntRange(10, ev.Pick(20, 32)).Draw(t, "aligned-cells")
+			cnt := [3]int{fixedCells, fixedCells, fixedCells}
+			if rapid.Bool().Draw(t, "non-cubic-volume") {
+				cnt[rapid.IntRange(0, 2).Draw(t, "short-axis")] = rapid.IntRange(8, fixedCells).Draw(t, "short-cells")
+			}
+			org := v3.Vec{X: -float64(cnt[0]) * hh / 2, Y: -float64(cnt[1]) * hh / 2, Z: -float64(cnt[2]) * hh / 2}
+			if rapid.Bool().Draw(t, "off-centre") {
+				org = org.Add(v3.Vec{X: g.Coord(t, "ox", 3*S), Y: g.Coord(t, "oy", 3*S), Z: g.Coord(t, "oz", 3*S)})
+			}
+			fixedBox = &sdf.Box3{Min: org, Max: org.Add(v3.Vec{X: float64(cnt[0]) * hh, Y: float64(cnt[1]) * hh, Z: float64(cnt[2]) * hh})}
+			mk := func(l string) *shape.Node {
+				var lo, hi [3]float64
+				o := [3]float64{org.X, org.Y, org.Z}
+				for a := 0; a < 3; a++ {
+					i := rapid.IntRange(2, cnt[a]-6).Draw(t, fmt.Sprintf("%s.lo%d", l, a))
+					j := rapid.IntRange(i+4, cnt[a]-2).Draw(t, fmt.Sprintf("%s.hi%d", l, a))
+					lo[a], hi[a] = o[a]+float64(i)*hh, o[a]+float64(j)*hh
+				}
+				bx := &shape.Node{Op: "box3", P: []float64{hi[0] - lo[0], hi[1] - lo[1], hi[2] - lo[2], 0}}
+				return &shape.Node{Op: "xform3", I: []int{0, 0}, K: []*shape.Node{bx}, P: []float64{0, 0, 1, 0, (lo[0] + hi[0]) / 2, (lo[1] + hi[1]) / 2, (lo[2] + hi[2]) / 2}}
+			}
+			n = mk("a")
+			switch rapid.SampledFrom([]string{"box", "box", "union3", "diff3"}).Draw(t, "aligned-kind") {
+			case "union3":
+				n = &shape.Node{Op: "union3", K: []*shape.Node{n, mk("b")}}
+			case "diff3":
+				n = &shape.Node{Op: "diff3", K: []*shape.Node{n, mk("b")}}
+			}
+		} else if kind == "exact" {
 			n = shape.GenExact3(t, S, rapid.IntRange(0, 2).Draw(t, "depth"))
 		} else if kind == "squashed" {
 			// a matrix-scaled shape (ellipsoid, squashed box ...): its field is not a distance bound - it
@@ -135,12 +171,41 @@ func TestDualContouring(t *testing.T) {
 			rec.Case(false, "", "discarded")
 			return
 		}
-		cells := rapid.IntRange(6, ev.Pick(24, 48)).Draw(t, "cells")
+		// the resolution is drawn among those that resolve the solid (see "deep" below): the deepest
+		// point of a 13^3 probe grid bounds the cell size from above
+		deepest := 0.0
+		for i := 0; i <= 12; i++ {
+			for j := 0; j <= 12; j++ {
+				for k := 0; k <= 12; k++ {
+					p := bb.Min.Add(v3.Vec{X: sz.X * float64(i) / 12, Y: sz.Y * float64(j) / 12, Z: sz.Z * float64(k) / 12})
+					deepest = math.Max(deepest, -s.Evaluate(p)*math.Min(1, minScale))
+				}
+			}
+		}
+		minCells, maxCells := 6, ev.Pick(24, 48)
+		if deepest > 0 {
+			// cell diagonal sqrt(3)*(size+2*3 cells)/cells <= deepest/1.5
+			if need := int(math.Ceil(1.5*math.Sqrt(3)*sz.MaxComponent()/deepest)) + 11; need > minCells {
+				minCells = need
+			}
+		}
+		if minCells > ev.Pick(40, 72) {
+			rec.Count("discarded:solid-too-thin-for-the-resolution-budget", 1)
+			rec.Case(false, "", "dc:too-thin")
+			return
+		}
+		if maxCells < minCells {
+			maxCells = minCells
+		}
+		cells := rapid.IntRange(minCells, maxCells).Draw(t, "cells")
 		// enlarge the box by 1.5..3 cells on every side: the surface is strictly inside the sampled volume
 		// and away from the boundary quads the renderers skip
 		h0 := sz.MaxComponent() / float64(cells)
 		m := g.F(1.5, 3).Draw(t, "margin") * h0
 		nb := sdf.Box3{Min: bb.Min.SubScalar(m), Max: bb.Max.AddScalar(m)}
+		if fixedBox != nil {
+			nb, cells, m = *fixedBox, fixedCells, 0
+		}
 		rs := lat.Rebox3{S: s, BB: nb}
 		h := nb.Size().MaxComponent() / float64(cells)
 		diag := math.Sqrt(3) * h
